@@ -358,6 +358,10 @@ impl<T: HashAlgorithm> Nomt<T> {
 
         let _write_guard = self.access_lock.write();
 
+        if self.store.is_poisoned() {
+            anyhow::bail!("Store is poisoned due to prior error");
+        }
+
         let Some(rollback) = self.store.rollback() else {
             anyhow::bail!("rollback: not enabled");
         };
@@ -678,6 +682,10 @@ impl FinishedSession {
     pub fn commit<T: HashAlgorithm>(self, nomt: &Nomt<T>) -> Result<(), anyhow::Error> {
         let _write_guard = self.take_global_guard.then(|| nomt.access_lock.write());
 
+        if nomt.store.is_poisoned() {
+            anyhow::bail!("Store is poisoned due to prior error");
+        }
+
         {
             let mut shared = nomt.shared.lock();
             if shared.root != self.prev_root {
@@ -694,7 +702,11 @@ impl FinishedSession {
         if let Some(rollback_delta) = self.rollback_delta {
             // UNWRAP: if rollback_delta is `Some`, then rollback must be also `Some`.
             let rollback = nomt.store.rollback().unwrap();
-            rollback.commit(rollback_delta)?;
+            // The log and the root are in an unknown state if the delta cannot be appended.
+            if let Err(e) = rollback.commit(rollback_delta) {
+                nomt.store.poison();
+                return Err(e);
+            }
         }
 
         nomt.store.commit(
@@ -725,6 +737,10 @@ impl FinishedSession {
             return Ok(Some(self));
         }
 
+        if nomt.store.is_poisoned() {
+            anyhow::bail!("Store is poisoned due to prior error");
+        }
+
         // A stale changeset must be rejected before its delta is recorded in the rollback log.
         // The root cannot change while the write guard is held.
         {
@@ -741,7 +757,12 @@ impl FinishedSession {
         if let Some(rollback_delta) = self.rollback_delta {
             // UNWRAP: if rollback_delta is `Some`, then rollback must be also `Some`.
             let rollback = nomt.store.rollback().unwrap();
-            if let Some(delta) = rollback.commit_nonblocking(rollback_delta)? {
+            // The log is in an unknown state if the delta cannot be appended.
+            let res = rollback.commit_nonblocking(rollback_delta);
+            if res.is_err() {
+                nomt.store.poison();
+            }
+            if let Some(delta) = res? {
                 self.rollback_delta = Some(delta);
                 return Ok(Some(self));
             }
@@ -800,6 +821,10 @@ impl Overlay {
 
         let _write_guard = nomt.access_lock.write();
 
+        if nomt.store.is_poisoned() {
+            anyhow::bail!("Store is poisoned due to prior error");
+        }
+
         {
             let mut shared = nomt.shared.lock();
             if shared.root != self.prev_root() {
@@ -817,7 +842,11 @@ impl Overlay {
         if let Some(rollback_delta) = rollback_delta {
             // UNWRAP: if rollback_delta is `Some`, then rollback must be also `Some`.
             let rollback = nomt.store.rollback().unwrap();
-            rollback.commit(rollback_delta)?;
+            // The log and the root are in an unknown state if the delta cannot be appended.
+            if let Err(e) = rollback.commit(rollback_delta) {
+                nomt.store.poison();
+                return Err(e);
+            }
         }
 
         nomt.store
@@ -857,6 +886,10 @@ impl Overlay {
             return Ok(Some(self));
         }
 
+        if nomt.store.is_poisoned() {
+            anyhow::bail!("Store is poisoned due to prior error");
+        }
+
         {
             let mut shared = nomt.shared.lock();
             if shared.root != self.prev_root() {
@@ -874,7 +907,11 @@ impl Overlay {
         if let Some(rollback_delta) = rollback_delta {
             // UNWRAP: if rollback_delta is `Some`, then rollback must be also `Some`.
             let rollback = nomt.store.rollback().unwrap();
-            rollback.commit(rollback_delta)?;
+            // The log and the root are in an unknown state if the delta cannot be appended.
+            if let Err(e) = rollback.commit(rollback_delta) {
+                nomt.store.poison();
+                return Err(e);
+            }
         }
 
         nomt.store
